@@ -98,6 +98,31 @@ SameDoc(da, db) ==
 SameBody(da, db) == da.elems = db.elems /\ da.rootcls = db.rootcls /\ da.ns = db.ns
 SameFrame(da, db) == da.w = db.w /\ da.h = db.h /\ da.backdrop = db.backdrop
 Flag01(b) == IF b THEN 1 ELSE 0
+\* the style sheet reflects each cosmetic setting in its own rule (settings.rs documents what each one is for).
+\* ev.rel.vals = [stroke, fill, back, font, size, width]: the values as code points, as they must appear
+RuleHas(style, selector, decl) ==
+  \E i \in 1..Len(style) : /\ style[i] = selector \o <<32, 123>>
+     /\ \E j \in (i + 1)..Len(style) : /\ style[j] = <<32, 32>> \o decl \o <<59>>
+                                         /\ \A q \in (i + 1)..j : style[q] # <<125>>
+Str2(s) == s     \* selectors below are written as code points
+SelLines == <<46,115,118,103,98,111,98,32,108,105,110,101,44,32,46,115,118,103,98,111,98,32,112,97,116,104,44,32,46,115,118,103,98,111,98,32,99,105,114,99,108,101,44,32,46,115,118,103,98,111,98,32,114,101,99,116,44,32,46,115,118,103,98,111,98,32,112,111,108,121,103,111,110>>
+SelText == <<46,115,118,103,98,111,98,32,116,101,120,116>>                               \* .svgbob text
+SelBackdrop == <<46,115,118,103,98,111,98,32,114,101,99,116,46,98,97,99,107,100,114,111,112>>   \* .svgbob rect.backdrop
+SelFilled == <<46,115,118,103,98,111,98,32,46,102,105,108,108,101,100>>                 \* .svgbob .filled
+SelBgFilled == <<46,115,118,103,98,111,98,32,46,98,103,95,102,105,108,108,101,100>>     \* .svgbob .bg_filled
+SelNofill == <<46,115,118,103,98,111,98,32,46,110,111,102,105,108,108>>                 \* .svgbob .nofill
+PStroke == <<115,116,114,111,107,101,58,32>>                 \* "stroke: "
+PStrokeWidth == <<115,116,114,111,107,101,45,119,105,100,116,104,58,32>>
+PFill == <<102,105,108,108,58,32>>
+PFontFamily == <<102,111,110,116,45,102,97,109,105,108,121,58,32>>
+PFontSize == <<102,111,110,116,45,115,105,122,101,58,32>>
+StyleReflects(style, v) ==
+  /\ RuleHas(style, SelLines, PStroke \o v.stroke) /\ RuleHas(style, SelLines, PStrokeWidth \o v.width)
+  /\ RuleHas(style, SelText, PFill \o v.stroke) /\ RuleHas(style, SelText, PFontFamily \o v.font)
+  /\ RuleHas(style, SelText, PFontSize \o v.size \o <<112, 120>>)
+  /\ RuleHas(style, SelBackdrop, PFill \o v.back) /\ RuleHas(style, SelBgFilled, PFill \o v.back) /\ RuleHas(style, SelNofill, PFill \o v.back)
+  /\ RuleHas(style, SelFilled, PFill \o v.fill)
+
 SettingsVariant(a, ev) ==
   LET da == a.doc db == ev.doc k == ev.rel.kind IN
   /\ da.wf = 1 /\ db.wf = 1 /\ a.rows = ev.rows
@@ -117,6 +142,7 @@ SettingsVariant(a, ev) ==
             /\ SameBody(da, db) /\ SameFrame(da, db) /\ da.order = db.order
             /\ da.nstyle = db.nstyle /\ da.ndefs = db.ndefs /\ da.nbackdrop = db.nbackdrop
             /\ Len(db.style) = Len(da.style)
+            /\ StyleReflects(db.style, ev.rel.vals)
        [] k = "override" ->       \* an overridden size changes only root and backdrop dimensions
             /\ SameBody(da, db) /\ da.style = db.style /\ da.order = db.order
             /\ db.w = ev.rel.w /\ db.h = ev.rel.h /\ db.backdrop = <<0, 0, ev.rel.w, ev.rel.h>>
